@@ -23,23 +23,9 @@ CHECK_DEADLOCK FALSE
 """
 
 
-def run(ctx):
-    r1 = [(2, 2, 0, "B3", "Key5", "Bk2a", 2, "FALSE"), (2, 2, 1, "B3", "Key5", "Bk2b", 2, "FALSE"), (1, 1, 0, "B3", "Key5", "Bk1", 2, "FALSE"),
-          (2, 2, 1, "B3", "Key5", "Bk2a", 2, "TRUE")]
-    if ctx.tier == "thorough":
-        r1 += [(2, 3, 1, "B4", "Key6", "Bk3", 3, "FALSE"), (3, 2, 2, "B4", "Key6", "Bk2a", 2, "FALSE"), (2, 2, 0, "B4", "Key6", "Bk2b", 3, "TRUE")]
-    for i, (np_, w, q, b, k, bk, mt, g) in enumerate(r1):
-        cfg = ctx.write_cfg("MCPipeline.%d.cfg" % i, R1 % (np_, w, q, b, k, bk, mt, g, "FALSE"))
-        ctx.tlc_check("MCPipeline", cfg, label="P=%d W=%d Q=%d %s gates=%s" % (np_, w, q, bk, g), timeout=3000)
-    bad = ctx.tlc_check("MCPipeline", ctx.write_cfg("MCPipeline.broken.cfg", R1 % (2, 2, 1, "B3", "Key5", "Bk2a", 2, "FALSE", "TRUE")),
-                        label="broken design: Reset as a later command (must fail)", must_pass=False)
-    if bad.violated not in ("Conservation", "MonitorQuiet", "QuiesceClause"):
-        raise vlib.MachineryError("vacuity: the broken design was not refuted (%s)" % bad.violated)
-    rcv_named = rcvstage.run(ctx, clauses=("Garbled", "NoPhantom", "AtMostOnce", "Lost"))   # the socket side: nothing lost or duplicated
-
-    plans = [("sim9", 9, 4, 3, "num=%d" % (150 if ctx.tier == "quick" else 4000), 10)]
-    if ctx.tier == "thorough":
-        plans.append(("sim14", 14, 6, 4, "num=3000", 15))
+def stage(ctx, plans, clauses=None):
+    """The pipeline schedules (real parsers -> BackendHandler with gated real aggregators -> MetricFlusher -> recording backend); returns the
+    named situations. clauses: the ConservationProp clauses the caller is concerned with (None = all). Also a stage of C06."""
     named = {}
     for label, ml, mo, mt, sim, depth in plans:
         cfg = ctx.write_cfg("PipelineSched.%s.cfg" % label, SCHED % (ml, mo, mt))
@@ -66,7 +52,29 @@ def run(ctx):
             keep = ctx.save_replay(v.bad.replace("(", "_").replace(")", "").replace(" ", "_"),
                                    {"clause": v.bad, "trace_line": v.line, "event": json.loads(lines[v.line - 1]) if 0 < v.line <= len(lines) else None,
                                     "schedule_trace": [json.loads(x) for x in lines[start:v.line]]})
-            ctx.violation(v.bad, keep, "ConservationProp clause %s broken at trace line %d: %s" % (v.bad, v.line, lines[v.line - 1][:500] if v.line else ""))
+            if clauses is None or v.bad.split("(")[0] in clauses:
+                ctx.violation(v.bad, keep, "ConservationProp clause %s broken at trace line %d: %s" % (v.bad, v.line, lines[v.line - 1][:500] if v.line else ""))
+    return named
+
+
+def run(ctx):
+    r1 = [(2, 2, 0, "B3", "Key5", "Bk2a", 2, "FALSE"), (2, 2, 1, "B3", "Key5", "Bk2b", 2, "FALSE"), (1, 1, 0, "B3", "Key5", "Bk1", 2, "FALSE"),
+          (2, 2, 1, "B3", "Key5", "Bk2a", 2, "TRUE")]
+    if ctx.tier == "thorough":
+        r1 += [(2, 3, 1, "B4", "Key6", "Bk3", 3, "FALSE"), (3, 2, 2, "B4", "Key6", "Bk2a", 2, "FALSE"), (2, 2, 0, "B4", "Key6", "Bk2b", 3, "TRUE")]
+    for i, (np_, w, q, b, k, bk, mt, g) in enumerate(r1):
+        cfg = ctx.write_cfg("MCPipeline.%d.cfg" % i, R1 % (np_, w, q, b, k, bk, mt, g, "FALSE"))
+        ctx.tlc_check("MCPipeline", cfg, label="P=%d W=%d Q=%d %s gates=%s" % (np_, w, q, bk, g), timeout=3000)
+    bad = ctx.tlc_check("MCPipeline", ctx.write_cfg("MCPipeline.broken.cfg", R1 % (2, 2, 1, "B3", "Key5", "Bk2a", 2, "FALSE", "TRUE")),
+                        label="broken design: Reset as a later command (must fail)", must_pass=False)
+    if bad.violated not in ("Conservation", "MonitorQuiet", "QuiesceClause"):
+        raise vlib.MachineryError("vacuity: the broken design was not refuted (%s)" % bad.violated)
+    rcv_named = rcvstage.run(ctx, clauses=("Garbled", "NoPhantom", "AtMostOnce", "Lost"))   # the socket side: nothing lost or duplicated
+
+    plans = [("sim9", 9, 4, 3, "num=%d" % (150 if ctx.tier == "quick" else 4000), 10)]
+    if ctx.tier == "thorough":
+        plans.append(("sim14", 14, 6, 4, "num=3000", 15))
+    named = stage(ctx, plans)
     for need in ("Q=0", "offer-while-post-held", "offer-while-backend-held", "tick-while-merge-held", "offer-while-merge-held"):
         if named.get(need, 0) == 0 and not (ctx.violations or locals().get("fails")):  # no vacuity verdict once something was found
             raise vlib.MachineryError("vacuity: situation %s never reached" % need)
